@@ -482,6 +482,12 @@ func (s *Sess) checkAssertsAt(in ssa.CallInstruction, name string, st *State) {
 		c := s.funcEnv(st, s.entry, nil)
 		instr := in.(ssa.Instruction)
 		c.lookup = func(n string) (Val, bool) { return s.resolveLocalAt(instr, n, st) }
+		// the call's explicit arguments are arg0, arg1, ... (receiver excluded for interface calls)
+		for i, av := range in.Common().Args {
+			if v := s.val(av); v.place == nil && v.t != "" {
+				c.vars[fmt.Sprintf("arg%d", i)] = v
+			}
+		}
 		f, err := c.evalBool(a.C.E)
 		if err != nil {
 			s.detached("assert at %s#%d %q: %v", a.Callee, a.Ord, a.C.Src, err)
